@@ -1,0 +1,489 @@
+//! Verification hooks, compiled only with the off-by-default cargo feature `verif`.
+//!
+//! Nothing in here changes what the solvers compute. With the feature on and no configuration
+//! installed every hook is one relaxed atomic load and sampling uses [rand::thread_rng] exactly as
+//! the production build does. A harness installs a [Config] before one call to `Game::solve`
+//! (state is process global, so one monitored solve at a time) and collects the [Event] log
+//! afterwards.
+use crate::{Game, Node, Strategies};
+use rand::rngs::ThreadRng;
+use rand::RngCore;
+use std::cell::Cell;
+use std::sync::atomic::{AtomicU32, AtomicU64, Ordering};
+use std::sync::{Arc, Mutex};
+use std::thread;
+use std::time::{Duration, Instant};
+
+/// `who` value of a chance sampling site; player sites use 0 (player one) and 1 (player two)
+pub const CHANCE: u8 = 2;
+
+/// log [Event::Draw]
+pub const LOG_DRAW: u32 = 1;
+/// log [Event::Visit]
+pub const LOG_VISIT: u32 = 2;
+/// log [Event::State] and [Event::Bound]
+pub const LOG_STATE: u32 = 4;
+/// log [Event::Pass]
+pub const LOG_PASS: u32 = 8;
+/// perturb thread schedules at the jitter sites
+pub const JITTER: u32 = 16;
+const SAMPLING: u32 = 32;
+
+/// The state of one player infoset as stored by a solver
+#[derive(Debug, Clone, PartialEq)]
+pub struct InfoState {
+    /// cumulative regret per action
+    pub cum_regret: Vec<f64>,
+    /// cumulative (unnormalised) average strategy per action
+    pub cum_strat: Vec<f64>,
+    /// current strategy per action
+    pub strat: Vec<f64>,
+}
+
+/// Something a solver did
+#[derive(Debug, Clone, PartialEq)]
+pub enum Event {
+    /// A tree traversal is about to start. `phase` is 0 when both players are updated in the
+    /// pass, 1 when only player one's regrets are updated and 2 for player two.
+    Pass {
+        /// running pass number, starting at one
+        pass: u64,
+        /// solver iteration, starting at one
+        iteration: u64,
+        /// see above
+        phase: u8,
+    },
+    /// A sampler was asked for a fresh (uncached) draw
+    Draw {
+        /// [CHANCE], or the player index whose action was drawn
+        who: u8,
+        /// index of the infoset among `who`'s infosets
+        infoset: usize,
+        /// pass in which the draw happened
+        pass: u64,
+        /// the distribution presented to the sampler
+        weights: Vec<f64>,
+        /// the index the traversal then used
+        result: usize,
+        /// rayon worker index plus one, zero outside the pool
+        thread: usize,
+    },
+    /// A decision node was processed. `role` 0: regrets and average strategy updated (unsampled
+    /// and chance sampled traversal), 1: regrets updated (external sampling, updating player),
+    /// 2: average strategy updated and action sampled (external sampling, other player).
+    Visit {
+        /// see above
+        role: u8,
+        /// acting player index
+        player: u8,
+        /// infoset index of the node
+        infoset: usize,
+        /// address of the node, see [DumpNode]
+        node: usize,
+        /// pass in which the visit happened
+        pass: u64,
+        /// rayon worker index plus one, zero outside the pool
+        thread: usize,
+    },
+    /// All infosets of `player` at a quiescent point. `stage` 0: after the traversal of `pass` and
+    /// before the strategies advance, 1: after they advanced.
+    State {
+        /// pass the snapshot belongs to
+        pass: u64,
+        /// see above
+        stage: u8,
+        /// player index
+        player: u8,
+        /// state per infoset in index order
+        infosets: Vec<InfoState>,
+    },
+    /// The per player regret bounds held by the solve loop after the strategies advanced
+    Bound {
+        /// pass after which the values were read
+        pass: u64,
+        /// bound of player one and two
+        regs: [f64; 2],
+    },
+}
+
+/// Signature of a function that decides draws: `(who, infoset, pass, weights) -> index`
+pub type Chooser = dyn Fn(u8, usize, u64, &[f64]) -> usize + Send + Sync;
+
+/// How the sampling sites obtain randomness
+#[derive(Clone)]
+pub enum Sampling {
+    /// `rand::thread_rng()`, as without the feature
+    Production,
+    /// the production samplers are fed from a deterministic generator keyed by
+    /// `(seed, who, infoset, pass)`, so a draw does not depend on threads or visiting order
+    Seeded(u64),
+    /// the production sampler runs (and is logged) but the traversal uses the returned index
+    Forced(Arc<Chooser>),
+}
+
+/// What the hooks should do during the next solve
+#[derive(Clone)]
+pub struct Config {
+    /// or of the `LOG_*` and [JITTER] flags
+    pub flags: u32,
+    /// source of sampling decisions
+    pub sampling: Sampling,
+    /// seed of the schedule perturbation
+    pub jitter_seed: u64,
+}
+
+static FLAGS: AtomicU32 = AtomicU32::new(0);
+static PASS: AtomicU64 = AtomicU64::new(0);
+static JITTER_SEED: AtomicU64 = AtomicU64::new(0);
+static SAMPLING_MODE: Mutex<Option<Sampling>> = Mutex::new(None);
+static EVENTS: Mutex<Vec<Event>> = Mutex::new(Vec::new());
+
+thread_local! {
+    static SITE: Cell<(u8, usize)> = const { Cell::new((CHANCE, usize::MAX)) };
+    static SITE_WEIGHTS: Cell<Vec<f64>> = const { Cell::new(Vec::new()) };
+    static JITTER_STATE: Cell<u64> = const { Cell::new(0) };
+}
+
+fn lock<T>(mutex: &Mutex<T>) -> std::sync::MutexGuard<'_, T> {
+    mutex.lock().unwrap_or_else(|poison| poison.into_inner())
+}
+
+/// Install a configuration, clear the event log and restart pass numbering
+pub fn start(config: Config) {
+    let mut flags = config.flags & !SAMPLING;
+    if !matches!(config.sampling, Sampling::Production) {
+        flags |= SAMPLING;
+    }
+    *lock(&SAMPLING_MODE) = Some(config.sampling);
+    lock(&EVENTS).clear();
+    PASS.store(0, Ordering::SeqCst);
+    JITTER_SEED.store(config.jitter_seed, Ordering::SeqCst);
+    FLAGS.store(flags, Ordering::SeqCst);
+}
+
+/// Switch all hooks off and return what was logged since [start]
+pub fn finish() -> Vec<Event> {
+    FLAGS.store(0, Ordering::SeqCst);
+    *lock(&SAMPLING_MODE) = None;
+    std::mem::take(&mut *lock(&EVENTS))
+}
+
+fn flags() -> u32 {
+    FLAGS.load(Ordering::Relaxed)
+}
+
+fn thread_index() -> usize {
+    rayon::current_thread_index().map_or(0, |ind| ind + 1)
+}
+
+fn push(event: Event) {
+    lock(&EVENTS).push(event);
+}
+
+fn mix(mut z: u64) -> u64 {
+    z = z.wrapping_add(0x9e37_79b9_7f4a_7c15);
+    z = (z ^ (z >> 30)).wrapping_mul(0xbf58_476d_1ce4_e5b9);
+    z = (z ^ (z >> 27)).wrapping_mul(0x94d0_49bb_1331_11eb);
+    z ^ (z >> 31)
+}
+
+/// Called by the solve loops before every traversal
+pub fn begin_pass(iteration: u64, phase: u8) {
+    if flags() != 0 {
+        let pass = PASS.fetch_add(1, Ordering::SeqCst) + 1;
+        if flags() & LOG_PASS != 0 {
+            push(Event::Pass {
+                pass,
+                iteration,
+                phase,
+            });
+        }
+    }
+}
+
+/// Called by a sampling site before it asks its sampler for a fresh draw
+pub fn site(who: u8, infoset: usize, weights: &[f64]) {
+    if flags() & (SAMPLING | LOG_DRAW) != 0 {
+        SITE.with(|site| site.set((who, infoset)));
+        SITE_WEIGHTS.with(|cell| cell.set(weights.to_vec()));
+    }
+}
+
+/// Called by a sampling site with the index its sampler returned; returns the index to use
+pub fn drawn(result: usize) -> usize {
+    let flags = flags();
+    if flags & (SAMPLING | LOG_DRAW) == 0 {
+        return result;
+    }
+    let (who, infoset) = SITE.with(|site| site.get());
+    let weights = SITE_WEIGHTS.with(|cell| cell.take());
+    let pass = PASS.load(Ordering::SeqCst);
+    let mut result = result;
+    if flags & SAMPLING != 0 {
+        let chooser = match &*lock(&SAMPLING_MODE) {
+            Some(Sampling::Forced(chooser)) => Some(chooser.clone()),
+            _ => None,
+        };
+        if let Some(chooser) = chooser {
+            result = chooser(who, infoset, pass, &weights);
+        }
+    }
+    if flags & LOG_DRAW != 0 {
+        push(Event::Draw {
+            who,
+            infoset,
+            pass,
+            weights,
+            result,
+            thread: thread_index(),
+        });
+    }
+    result
+}
+
+/// The generator handed to the samplers in place of [rand::thread_rng]
+pub enum VerifRng {
+    /// the production generator
+    Thread(ThreadRng),
+    /// a deterministic stream
+    Stream(u64),
+    /// always yields the same 64 bits
+    Fixed(u64),
+}
+
+impl RngCore for VerifRng {
+    fn next_u32(&mut self) -> u32 {
+        (self.next_u64() >> 32) as u32
+    }
+
+    fn next_u64(&mut self) -> u64 {
+        match self {
+            VerifRng::Thread(rng) => rng.next_u64(),
+            VerifRng::Stream(state) => {
+                *state = state.wrapping_add(0x9e37_79b9_7f4a_7c15);
+                mix(*state)
+            }
+            VerifRng::Fixed(bits) => *bits,
+        }
+    }
+
+    fn fill_bytes(&mut self, dest: &mut [u8]) {
+        for chunk in dest.chunks_mut(8) {
+            let bytes = self.next_u64().to_le_bytes();
+            chunk.copy_from_slice(&bytes[..chunk.len()]);
+        }
+    }
+
+    fn try_fill_bytes(&mut self, dest: &mut [u8]) -> Result<(), rand::Error> {
+        self.fill_bytes(dest);
+        Ok(())
+    }
+}
+
+/// Stand-in for [rand::thread_rng] at the sampling sites of the solvers
+pub fn thread_rng() -> VerifRng {
+    if flags() & SAMPLING != 0 {
+        if let Some(Sampling::Seeded(seed)) = &*lock(&SAMPLING_MODE) {
+            let (who, infoset) = SITE.with(|site| site.get());
+            let pass = PASS.load(Ordering::SeqCst);
+            let key = mix(mix(mix(*seed ^ 0x5eed) ^ pass) ^ (((who as u64) << 56) | infoset as u64));
+            return VerifRng::Stream(key);
+        }
+    }
+    VerifRng::Thread(rand::thread_rng())
+}
+
+/// The index the categorical sampler of external sampling returns for the uniform variate
+/// `k53 * 2^-53` and the probabilities `probs`
+pub fn multinomial_index(probs: &[f64], k53: u64) -> usize {
+    assert!(k53 < (1 << 53), "variate must be below one");
+    crate::solve::verif_multinomial(probs, &mut VerifRng::Fixed(k53 << 11))
+}
+
+/// Called where a decision node is processed
+pub fn visit(role: u8, player: crate::PlayerNum, infoset: usize, node: usize) {
+    if flags() & LOG_VISIT != 0 {
+        push(Event::Visit {
+            role,
+            player: player_index(player),
+            infoset,
+            node,
+            pass: PASS.load(Ordering::SeqCst),
+            thread: thread_index(),
+        });
+    }
+}
+
+fn player_index(player: crate::PlayerNum) -> u8 {
+    match player {
+        crate::PlayerNum::One => 0,
+        crate::PlayerNum::Two => 1,
+    }
+}
+
+/// Solver side access to the state of one infoset at a quiescent point
+pub trait Snap {
+    /// copy the state
+    fn snap(&mut self) -> InfoState;
+}
+
+/// Whether the solve loops should take snapshots
+pub fn want_state() -> bool {
+    flags() & LOG_STATE != 0
+}
+
+/// Log the state of all infosets of both players. `players` is in player order.
+pub fn snapshot<T: Snap>(stage: u8, players: [&mut [T]; 2]) {
+    if want_state() {
+        let pass = PASS.load(Ordering::SeqCst);
+        for (player, infos) in players.into_iter().enumerate() {
+            let infosets = infos.iter_mut().map(Snap::snap).collect();
+            push(Event::State {
+                pass,
+                stage,
+                player: player as u8,
+                infosets,
+            });
+        }
+    }
+}
+
+/// Log the bounds the solve loop holds
+pub fn bounds(regs: [f64; 2]) {
+    if want_state() {
+        push(Event::Bound {
+            pass: PASS.load(Ordering::SeqCst),
+            regs,
+        });
+    }
+}
+
+/// Perturb the schedule: called between (never inside) critical sections of the parallel solvers
+pub fn jitter() {
+    if flags() & JITTER == 0 {
+        return;
+    }
+    let rand = JITTER_STATE.with(|cell| {
+        let mut state = cell.get();
+        if state == 0 {
+            state = mix(JITTER_SEED.load(Ordering::Relaxed) ^ mix(thread_index() as u64 + 1)) | 1;
+        }
+        state ^= state << 13;
+        state ^= state >> 7;
+        state ^= state << 17;
+        cell.set(state);
+        state
+    });
+    match rand % 64 {
+        0..=23 => {}
+        24..=51 => thread::yield_now(),
+        52..=62 => {
+            let until = Instant::now() + Duration::from_nanos(1_000 + (rand >> 8) % 49_000);
+            while Instant::now() < until {
+                std::hint::spin_loop();
+            }
+        }
+        _ => thread::sleep(Duration::from_micros(50 + (rand >> 8) % 150)),
+    }
+}
+
+/// A node of the compact tree. `addr` is what [Event::Visit] reports in `node`.
+#[derive(Debug, Clone, PartialEq)]
+pub enum DumpNode {
+    /// terminal node with player one's payoff
+    Terminal {
+        /// payoff to player one
+        payoff: f64,
+    },
+    /// chance node with at least two outcomes
+    Chance {
+        /// address of the node
+        addr: usize,
+        /// chance infoset index
+        infoset: usize,
+        /// outcomes in order
+        children: Vec<DumpNode>,
+    },
+    /// decision node with at least two actions
+    Player {
+        /// address of the node
+        addr: usize,
+        /// acting player index
+        player: u8,
+        /// infoset index among that player's infosets
+        infoset: usize,
+        /// actions in order
+        children: Vec<DumpNode>,
+    },
+}
+
+/// The compact game as data
+#[derive(Debug, Clone, PartialEq)]
+pub struct Dump {
+    /// the tree
+    pub root: DumpNode,
+    /// outcome probabilities per chance infoset
+    pub chance_probs: Vec<Vec<f64>>,
+    /// number of actions per infoset per player
+    pub num_actions: [Vec<usize>; 2],
+    /// recorded previous infoset per infoset per player
+    pub prev_infoset: [Vec<Option<usize>>; 2],
+}
+
+fn dump_node(node: &Node) -> DumpNode {
+    match node {
+        Node::Terminal(payoff) => DumpNode::Terminal { payoff: *payoff },
+        Node::Chance(chance) => DumpNode::Chance {
+            addr: chance as *const crate::Chance as usize,
+            infoset: chance.infoset,
+            children: chance.outcomes.iter().map(dump_node).collect(),
+        },
+        Node::Player(player) => DumpNode::Player {
+            addr: player as *const crate::Player as usize,
+            player: player_index(player.num),
+            infoset: player.infoset,
+            children: player.actions.iter().map(dump_node).collect(),
+        },
+    }
+}
+
+impl<I, A> Game<I, A> {
+    /// The compact representation of this game as plain data
+    pub fn verif_dump(&self) -> Dump {
+        let [one, two] = &self.player_infosets;
+        Dump {
+            root: dump_node(&self.root),
+            chance_probs: self
+                .chance_infosets
+                .iter()
+                .map(|info| info.probs.to_vec())
+                .collect(),
+            num_actions: [
+                one.iter().map(|info| info.actions.len()).collect(),
+                two.iter().map(|info| info.actions.len()).collect(),
+            ],
+            prev_infoset: [
+                one.iter().map(|info| info.prev_infoset).collect(),
+                two.iter().map(|info| info.prev_infoset).collect(),
+            ],
+        }
+    }
+
+    /// The names of the multi-action infosets of each player in index order
+    pub fn verif_infoset_names(&self) -> [Vec<&I>; 2] {
+        let [one, two] = &self.player_infosets;
+        [
+            one.iter().map(|info| &info.infoset).collect(),
+            two.iter().map(|info| &info.infoset).collect(),
+        ]
+    }
+}
+
+impl<I, A> Strategies<'_, I, A> {
+    /// The action probabilities of each player exactly as stored: infosets in index order, actions
+    /// in declaration order, nothing filtered
+    pub fn verif_probs(&self) -> [&[f64]; 2] {
+        let [one, two] = &self.probs;
+        [one, two]
+    }
+}
